@@ -97,6 +97,7 @@ type loopInfo struct {
 }
 
 type fnTrans struct {
+	iters map[*ssa.Range]*mapIter // map iterations (range over a map)
 	eng   *Engine
 	fn    *ssa.Function
 	ct    *Contract
@@ -1527,6 +1528,14 @@ func (t *fnTrans) locate(li *loopInfo, ins ssa.Instruction, heaps map[string]boo
 				add("")
 				return
 			}
+		case *ssa.Parameter, *ssa.FreeVar:
+			// *p = v through a pointer that is fixed across the loop: only the cell p points to is written
+			if _, isP := under(a.Type()).(*types.Pointer); isP {
+				if lv, has := t.lvals[a]; !has || lv.Kind == lvCell {
+					add(t.val(a).C[0])
+					return
+				}
+			}
 		}
 	case *ssa.Call:
 		c := &x.Call
@@ -1613,6 +1622,12 @@ func (t *fnTrans) locate(li *loopInfo, ins ssa.Instruction, heaps map[string]boo
 						if g, isG := av.(*ssa.Global); isG {
 							pends = append(pends, pend{hs, t.eng.globalRef(g), false})
 							done = true
+						} else if _, isP := under(av.Type()).(*types.Pointer); isP && t.definedOutside(li, av) {
+							// *p where p is a pointer fixed across the loop: only that cell
+							if lv, has := t.lvals[av]; !has || lv.Kind == lvCell {
+								pends = append(pends, pend{hs, t.val(av).C[0], false})
+								done = true
+							}
 						}
 					}
 				}
